@@ -48,11 +48,15 @@ def direct_effects(cx, p):
                 eff.append(("unclassified-dependency", nm, mir.loc_of(t)))
         if is_hash_order(nm):
             eff.append(("hash-order", nm, mir.loc_of(t)))
+        if nm.split("::")[-1] in ADDRESS_METHODS and ("ptr" in nm or "slice" in nm or "<impl" in nm):
+            eff.append(("address", nm, mir.loc_of(t)))
     for blk in b["blocks"]:
         if blk["cleanup"]:
             continue
         for st in blk["stmts"]:
             s = json.dumps(st)
+            if "PointerExposeProvenance" in s or "PointerExposeAddress" in s:
+                eff.append(("address", "pointer-to-integer cast", mir.loc_of(st)))
             if '"k": "tlsref"' in s:
                 eff.append(("tls", "thread-local static", mir.loc_of(st)))
             if '"static": ' in s and '"k": "tlsref"' not in s:
@@ -63,6 +67,8 @@ def direct_effects(cx, p):
     return eff
 
 
+# where the caller's buffer happens to live is ambient input too: alignment queries and pointer-to-integer conversions
+ADDRESS_METHODS = {"align_offset", "align_to", "align_to_mut", "addr", "expose_provenance", "expose_addr", "is_aligned", "is_aligned_to"}
 ALLOWED_DEP_PREFIXES = ("serde_json::to_string", "_serde::", "serde::")
 HASH_ITER_METHODS = {"iter", "iter_mut", "keys", "values", "values_mut", "into_keys", "into_values", "drain", "retain", "extract_if",
                      "difference", "symmetric_difference", "intersection", "union"}
